@@ -177,6 +177,104 @@ Section Bind.
       + exists Q1, H, 0, 0. right. exact Cc.
   Qed.
 
+  (* ---- the same reduction when the two message lists have DIFFERENT lengths (insert / delete / truncate / extend):
+          the generators of the shorter statement are a prefix of those of the longer one, the shorter scalar vector is
+          padded with zeros; if that relation is trivial the two domain inputs -- which carry the counts -- collide *)
+  Lemma dot_firstn_pad (G : list G1t) : forall a k, length G = (length a + k)%nat ->
+    dot E LW (firstn (length a) G) a = dot E LW G (a ++ repeat 0 k).
+  Proof.
+    induction G as [|g G IH]; intros a k Hl.
+    - destruct a; cbn in *; try lia. destruct k; reflexivity.
+    - destruct a as [|x a]; cbn [length firstn app dot].
+      + clear IH. cbn in Hl. destruct k as [|k]; [cbn in Hl; lia|]. cbn [repeat dot].
+        assert (Hz : forall G' j, dot E LW G' (repeat 0 j) = 0).
+        { induction G' as [|g' G' IHg]; intros [|j]; cbn; try ring. rewrite IHg. ring. }
+        rewrite Hz. ring.
+      + rewrite (IH a k) by (cbn in Hl; lia). reflexivity.
+  Qed.
+
+  Theorem verify_binding_core_len pk s ms ms' g g' header header' api :
+    core_verify E pk s ms g header api = Ok tt ->
+    core_verify E pk s ms' g' header' api = Ok tt ->
+    g_p1 E g = g_p1 E g' -> g_values E g = firstn (length ms + 1) (g_values E g') ->
+    (length ms < length ms')%nat -> len ms' <= usize_max ->
+    exists Q1 H', g_values E g' = Q1 :: H' /\
+      (DLRelation (Q1 :: H') ((fsub S (f_of_okm S (expand E (dom_input pk Q1 (firstn (length ms) H') header api) (api ++ c_h2s (cs E)) 48))
+                                      (f_of_okm S (expand E (dom_input pk Q1 H' header' api) (api ++ c_h2s (cs E)) 48)))
+                              :: zip_sub (ms ++ repeat 0 (length ms' - length ms)) ms')
+       \/ Collision (fun x => f_of_okm S (expand E x (api ++ c_h2s (cs E)) 48))
+                    (dom_input pk Q1 (firstn (length ms) H') header api) (dom_input pk Q1 H' header' api)).
+  Proof.
+    intros V1 V2 Hp1 Hpre Hlt Hmax.
+    apply (core_verify_iff E LW) in V1 as [B [HB1 E1]]. apply (core_verify_iff E LW) in V2 as [B' [HB2 E2]].
+    unfold B_of in HB1, HB2.
+    destruct (negb (Nat.eqb (length (g_values E g)) (length ms + 1))) eqn:L1; [discriminate|].
+    destruct (negb (Nat.eqb (length (g_values E g')) (length ms' + 1))) eqn:L2; [discriminate|].
+    apply negb_false_iff, Nat.eqb_eq in L1, L2.
+    destruct (g_values E g') as [|Q1 H'] eqn:Eg'; [cbn in L2; lia|].
+    rewrite Hpre in HB1. replace (length ms + 1)%nat with (Datatypes.S (length ms)) in HB1 by lia. cbn [firstn] in HB1.
+    cbn [index nth_error unwrap bind skipn] in HB1, HB2.
+    set (H := firstn (length ms) H') in *.
+    destruct (calculate_domain E pk Q1 H header api) as [dom| | |] eqn:D1; cbn [bind] in HB1; try discriminate.
+    destruct (calculate_domain E pk Q1 H' header' api) as [dom'| | |] eqn:D2; cbn [bind] in HB2; try discriminate.
+    inversion HB1; subst B; clear HB1. inversion HB2; subst B'; clear HB2.
+    apply calculate_domain_eq in D1, D2.
+    exists Q1, H'. split; [reflexivity|]. fold H.
+    set (hd := fun x => f_of_okm S (expand E x (api ++ c_h2s (cs E)) 48)) in *.
+    fold (hd (dom_input pk Q1 H header api)) in D1. fold (hd (dom_input pk Q1 H' header' api)) in D2.
+    fold (hd (dom_input pk Q1 H header api)). fold (hd (dom_input pk Q1 H' header' api)).
+    rewrite <- D1, <- D2.
+    assert (HlenH' : length H' = length ms') by (cbn in L2; lia).
+    set (k := (length ms' - length ms)%nat).
+    assert (Hpad : length (ms ++ repeat 0 k) = length ms') by (rewrite app_length, repeat_length; unfold k; lia).
+    assert (HBB : d1 (compute_B E g Q1 H dom ms) = d1 (compute_B E g' Q1 H' dom' ms')) by (rewrite <- E1, <- E2; reflexivity).
+    unfold compute_B in HBB. rewrite !(dl_msm E LW), !(L_dl1_add E LW), !(L_dl1_mul E LW) in HBB. rewrite Hp1 in HBB.
+    unfold H in HBB. rewrite (dot_firstn_pad H' ms k) in HBB by (unfold k; lia).
+    assert (Hrel : dot E LW (Q1 :: H') ((dom - dom') :: zip_sub (ms ++ repeat 0 k) ms') = 0).
+    { cbn [dot]. rewrite dot_zip_sub by exact Hpad.
+      transitivity ((d1 (g_p1 E g') + dom * d1 Q1 + dot E LW H' (ms ++ repeat 0 k)) - (d1 (g_p1 E g') + dom' * d1 Q1 + dot E LW H' ms')); [ring|].
+      rewrite HBB. ring. }
+    destruct (existsb (fun x => negb (feqb S x 0)) ((dom - dom') :: zip_sub (ms ++ repeat 0 k) ms')) eqn:Enz.
+    - left. split; [cbn [length]; rewrite zip_sub_length by exact Hpad; lia|]. split; [exact Enz|exact Hrel].
+    - right. cbn [existsb] in Enz. apply orb_false_iff in Enz as [Z1 _].
+      apply negb_false_iff in Z1. apply (feqb_true E LW) in Z1.
+      split.
+      + (* the two domain inputs carry different counts *)
+        unfold dom_input. intros C. apply app_inv_head in C.
+        rewrite <- !app_assoc in C.
+        apply app_eq_len_split in C as [Hc _]; [|rewrite !i2osp8_length; reflexivity].
+        apply i2osp8_inj in Hc.
+        * unfold len in Hc. apply Nat2N.inj in Hc. unfold H in Hc. rewrite firstn_length in Hc. lia.
+        * unfold len, H. rewrite firstn_length. unfold len in Hmax. lia.
+        * unfold len. rewrite HlenH'. exact Hmax.
+      + rewrite <- D1, <- D2. transitivity (dom - dom' + dom'); [ring|]. rewrite Z1. ring.
+  Qed.
+
+  Theorem verify_binding_lengths s pk msgs msgs' header header' :
+    suite_ok E ->
+    verify E s pk (Some msgs) header = Ok tt ->
+    verify E s pk (Some msgs') header' = Ok tt ->
+    (length msgs < length msgs')%nat -> len msgs' <= usize_max ->
+    exists Q1 H' dm dm',
+      DLRelation (Q1 :: H') (fsub S dm dm' :: zip_sub (map (hm E) msgs ++ repeat 0 (length msgs' - length msgs)) (map (hm E) msgs')) \/
+      Collision (fun x => f_of_okm S (expand E x (c_api_id (cs E) ++ c_h2s (cs E)) 48))
+                (dom_input pk Q1 (firstn (length msgs) H') header (c_api_id (cs E))) (dom_input pk Q1 H' header' (c_api_id (cs E))).
+  Proof.
+    intros Hs V1 V2 Hlt Hmax. pose proof Hs as [[Hm _] _].
+    unfold verify in V1, V2. cbn [option_default] in V1, V2.
+    rewrite (messages_to_scalars_ok E) in V1, V2 by assumption. cbn [bind] in V1, V2. fold (hm E) in V1, V2.
+    unfold gens_create in V1, V2.
+    destruct (g1_dec P (c_p1 (cs E))) as [p1|]; cbn [unwrap bind] in V1, V2; [|discriminate].
+    destruct (verify_binding_core_len pk s (map (hm E) msgs) (map (hm E) msgs') _ _ header header' _ V1 V2) as [Q1 [H' [_ R]]].
+    - reflexivity.
+    - cbn [g_values]. rewrite map_length. symmetry. apply create_prefix. lia.
+    - rewrite !map_length. exact Hlt.
+    - unfold len in *. rewrite map_length. exact Hmax.
+    - rewrite !map_length in R. exists Q1, H'. destruct R as [R|Cc].
+      + eexists. eexists. left. exact R.
+      + exists 0, 0. right. exact Cc.
+  Qed.
+
   (* what acceptance establishes about the statement's shape *)
   Lemma core_proof_verify_accepts' pk p g header ph dm di api :
     N.of_nat (length (p_m_cap E p) + length di) <= usize_max ->
